@@ -12,6 +12,7 @@ import (
 	"encoding/json"
 	"fmt"
 	"os"
+	"sync"
 	"time"
 )
 
@@ -178,3 +179,20 @@ func WouldBlock(f func()) bool {
 		return true
 	}
 }
+
+var wg sync.WaitGroup
+
+// Threads enables the cooperative thread layer of the executor with a pre-emption bound (no-op natively).
+func Threads(maxPreempt int) {}
+
+// Go starts f as a harness thread.
+func Go(f func()) {
+	wg.Add(1)
+	go func() {
+		defer wg.Done()
+		f()
+	}()
+}
+
+// Join waits for every thread started with Go.
+func Join() { wg.Wait() }
